@@ -209,6 +209,8 @@ static bool g_use_with = false;
 // split lists: hash = key (injective) or key >> 1 (pairs of keys with the SAME split-order hash, so that the
 // key comparator decides inside a run of equal hashes)
 static bool g_split_coll = false;
+// tie A variant isset_michael_hp_named only: hash = key - 1, so that key 0 hashes to SIZE_MAX (all bits set)
+static bool g_hash_m1 = false;
 struct long_less { bool operator()( long a, long b ) const { return a < b; } };
 
 // ---------------------------------------------------------------- container set-like lists
@@ -407,7 +409,11 @@ struct bad_hash {
 };
 // identity-like hash for split lists, so that bucket = key mod bucket_count
 struct ident_hash {
-    template <class T> size_t operator()( T const& v ) const { return g_split_coll ? size_t( key_of::k( v )) >> 1 : size_t( key_of::k( v )); }
+    template <class T> size_t operator()( T const& v ) const
+    {
+        if ( g_hash_m1 ) return size_t( key_of::k( v )) - 1;
+        return g_split_coll ? size_t( key_of::k( v )) >> 1 : size_t( key_of::k( v ));
+    }
 };
 
 // Feldman: hash = key << shift, so that all keys share the first `shift` bits of the bit string
@@ -662,6 +668,7 @@ struct Fixture {
         std::string const& v = c.variant;
         g_use_with = ( c.index % 4 ) == 3 && c.optl( "with", 1 ) != 0;
         g_split_coll = (( c.index / 4 ) % 2 ) == 1 && c.optl( "coll", 1 ) != 0;
+        g_hash_m1 = false;
         g_hints = c.optl( "hints", 1 ) != 0;
         bool odd = ( c.index % 2 ) != 0;
         auto gpi = [this] { after = [] { rcu_gpi::force_dispose(); }; };
@@ -732,8 +739,12 @@ struct Fixture {
         else if ( v == "isset_michael_hp_named" ) {
             gen.maxkeys = 8;
             gen.ins_heavy = ( c.index % 3 ) != 0;
+            // hash functor: 0 = key, 1 = key >> 1, 2 = key - 1 (the header word `coll=` tells the Lean machine)
+            int mode = int(( c.index / 4 ) % 3 );
+            g_split_coll = mode == 1;
+            g_hash_m1 = mode == 2;
             m.reset( new IntrSplitNamed );
-            hx = std::string( "cap=64 lf=1 coll=" ) + ( g_split_coll ? "1" : "0" );
+            hx = std::string( "cap=64 lf=1 coll=" ) + std::to_string( mode );
         }
         else if ( v[0] == 'f' || v[0] == 'i' ) {
             static unsigned const shifts[] = { 0, 3, 8, 13, 30, 56 };
